@@ -54,7 +54,7 @@ def generate(rng, tier):
 
 LEVEL_TEXT = ('Kernel-checked theorems about the Gallina model of Angle addition for ALL canonical angles: the nine spellings are one function, '
               'addition is bit-for-bit commutative (no hypothesis), preserves the canonical invariant with blade carry in {0,1}, has the zero angle as identity, '
-              'and its total is the sum of totals within 1e-10 + 2^-51. Associativity (2e-10) is decided by predicate search only (S3 leg). '
+              'and its total is the sum of totals within 1e-10 + 2^-51. The two associations of a triple differ by at most four addition tolerances (C03_add_assoc; the property text says two - four is what the per-step bound yields). '
               'The model is tied to the Rust code by a bit-exact correspondence on boundary-directed programs on every run.')
 LEVEL_NOTE = ('Trusted: Coq kernel + vm_compute; 4 classical/real-number axioms of the standard library; the hand-written model (validated bit-for-bit against the implementation on the cases of each run, not proved equal to it); '
               'harness, emitter and predicates. No libm function is involved in this property.')
